@@ -133,11 +133,22 @@ Proof.
   destruct (of_out (duration_from_unicode s)); auto.
 Qed.
 
-Lemma read_bytes_safe s : safe (read_bytes s).
+(** a C08 decoder that never crashes, under the except clause of its caller *)
+Lemma from_base64_safe s : safe (from_base64 s).
+Proof. unfold from_base64. pose proof (b64decode_total false s). destruct (b64decode false s); try discriminate; conc. Qed.
+Lemma from_hex_safe s : safe (from_hex s).
+Proof. unfold from_hex. pose proof (unhexlify_total s). destruct (unhexlify s); try discriminate; conc. Qed.
+Lemma from_urlsafe_bytes_safe b : safe (from_urlsafe_bytes b).
 Proof.
-  unfold read_bytes. pose proof (of_out_safe _ (b64decode_total false s)) as H.
-  destruct (of_out (b64decode false s)); auto.
+  unfold from_urlsafe_bytes. pose proof (a2b_go_total true b 0 0 0 []).
+  destruct (a2b_go true 0 0 0 [] b); try discriminate; conc.
 Qed.
+Lemma from_urlsafe_text_safe s : safe (from_urlsafe_text s).
+Proof. unfold from_urlsafe_text. useg. destruct (existsb _ s); [conc|]. apply from_urlsafe_bytes_safe. Qed.
+Lemma decode_text_safe e s : safe (decode_text e s).
+Proof. destruct e; simpl; auto using from_base64_safe, from_hex_safe, from_urlsafe_text_safe. Qed.
+Lemma read_bytes_safe e s : safe (read_bytes e s).
+Proof. unfold read_bytes. pose proof (decode_text_safe e s). destruct (decode_text e s); auto. Qed.
 
 Lemma read_enum_safe_xml vals s : safe (read_enum g_xml_enum_member vals s).
 Proof. unfold read_enum. destruct (negb _); conc. Qed.
